@@ -92,6 +92,15 @@ class Gen:
 
     def __init__(self, rng, name, jsonmode):
         self.rng, self.name, self.jsonmode = rng, name, jsonmode
+        # whole ragged columns that stay empty for the entire program while the others are filled (a table
+        # whose ancestral_state column is all-empty but whose metadata is not, and so on)
+        ragged = {"sites": ["s", "md"], "mutations": ["s", "md"], "individuals": ["loc", "par", "md"],
+                  "provenances": ["ts", "rec"]}.get(name, ["md"])
+        self.empty = set()
+        if rng.random() < 0.3:
+            self.empty = set(rng.sample(ragged, rng.randint(1, max(1, len(ragged) - 1))))
+            if jsonmode:
+                self.empty.discard("md")
 
     def f(self):
         r = self.rng
@@ -127,7 +136,7 @@ class Gen:
     def md(self, api):
         """(value for add_row/row objects, model bytes).  api=False: bytes go in raw through columns."""
         if not self.jsonmode:
-            b = self.rawbytes()
+            b = b"" if "md" in self.empty else self.rawbytes()
             return b, b
         obj = self.jsonobj()
         if api:
@@ -140,6 +149,8 @@ class Gen:
 
     def s(self):
         r = self.rng
+        if "s" in self.empty:
+            return ""
         if r.random() < 0.003:
             return "T" * 70001
         return r.choice(STRS)
@@ -149,7 +160,8 @@ class Gen:
         name = self.name
         r = self.rng
         if name == "provenances":
-            return (r.choice(["2024-01-01T00:00:00", "", "é", "t" * 30]), r.choice(['{"a":1}', "", "réc\x00", "r" * 200])), None
+            return ("" if "ts" in self.empty else r.choice(["2024-01-01T00:00:00", "", "é", "t" * 30]),
+                    "" if "rec" in self.empty else r.choice(['{"a":1}', "", "réc\x00", "r" * 200])), None
         mdv, mdb = self.md(api)
         if name == "nodes":
             row = (self.flags(), self.f(), self.ident(n, wide), self.ident(n, wide), mdb)
@@ -162,8 +174,8 @@ class Gen:
                    None if r.random() < 0.4 else self.f(), mdb)
         elif name == "individuals":
             nl = r.choice([0, 0, 1, 2, 3, 17]) if r.random() > 0.003 else 9001
-            loc = tuple(self.f() for _ in range(nl))
-            par = tuple(self.ident(n, wide) for _ in range(r.choice([0, 0, 1, 2, 2, 9])))
+            loc = tuple(self.f() for _ in range(0 if "loc" in self.empty else nl))
+            par = tuple(self.ident(n, wide) for _ in range(0 if "par" in self.empty else r.choice([0, 0, 1, 2, 2, 9])))
             row = (self.flags(), loc, par, mdb)
         elif name == "populations":
             row = (mdb,)
